@@ -422,7 +422,12 @@ __fixup_fst(struct dseq_clo_s *clo)
 {
 	struct dt_dt_s tmp;
 	struct dt_dt_s old;
+	const size_t naltite = clo->naltite;
 
+	/* the start value is computed from LAST using INCREMENT alone,
+	 * stepping backwards with the alternative increment as well
+	 * need not make progress */
+	clo->naltite = 0U;
 	/* assume clo->dir has been computed already */
 	old = tmp = clo->lst;
 	if (dt_sandwich_only_t_p(tmp)) {
@@ -442,6 +447,7 @@ __fixup_fst(struct dseq_clo_s *clo)
 	/* final checks */
 	old = __seq_this(old, clo);
 	date_neg_dur(clo->ite, clo->nite);
+	clo->naltite = naltite;
 	/* fixup again with negated dur */
 	old = __seq_this(old, clo);
 	return old;
